@@ -110,7 +110,7 @@ type Diff struct {
 // PyDiffOpts tunes the comparison.
 type PyDiffOpts struct {
 	Vars      []string
-	Path      string   // directory put on sys.path in both
+	Path      string // directory put on sys.path in both
 	Argv      []string
 	CompareTB bool
 	Stdout    bool
